@@ -505,11 +505,13 @@ def boundary_values(typ):
         if typ.string_capacity is not None:
             cap = typ.string_capacity
             return ["", "a", "x" * max(cap - 1, 0), "y" * cap, "z" * (cap + 1), "w" * (cap + 40), "\xe9\xff\x01"[: max(1, min(3, cap))]]
-        return [struct_value(typ, k) for k in range(3)]
+        vals = [struct_value(typ, k) for k in range(3)]
+        nz = negzero(typ, vals[0])
+        return vals + ([nz] if nz is not None else [])
     if typ == "BOOL":
         return [True, False, 1, 0]
     if typ in ("REAL", "LREAL"):
-        return [0.0, -1.5, 3.4028234663852886e38 if typ == "REAL" else 1.7976931348623157e308, 1e-45 if typ == "REAL" else 5e-324, 100.25, 7]
+        return [0.0, -1.5, 3.4028234663852886e38 if typ == "REAL" else 1.7976931348623157e308, 1e-45 if typ == "REAL" else 5e-324, 100.25, 7, -0.0]
     if typ == "DWORD":
         return [[bool((0xA5A5A5A5 >> i) & 1) for i in range(32)]]
     bits = INT_TYPES[typ]
@@ -532,6 +534,31 @@ def struct_value(typ, k):
         else:
             v[m.name] = elem_value(m.typ, k + i)
     return v
+
+
+def negzero(typ, v):
+    """The structure value `v` with every REAL / LREAL member (any depth) set to -0.0, a value that is falsy and equal to 0.0 but whose
+    encoding is not all zero bytes.  None when the type has no such member."""
+    if not isinstance(typ, TypeDef) or typ.string_capacity is not None or not isinstance(v, dict):
+        return None
+    out, changed = dict(v), False
+    for m in typ.visible:
+        if m.is_bit or m.name not in v:
+            continue
+        if m.typ in ("REAL", "LREAL"):
+            out[m.name] = [-0.0] * m.dim if m.dim else -0.0
+            changed = True
+        elif isinstance(m.typ, TypeDef):
+            if m.dim:
+                elems = [negzero(m.typ, e) for e in v[m.name]]
+                if any(e is not None for e in elems):
+                    out[m.name] = [e if e is not None else o for e, o in zip(elems, v[m.name])]
+                    changed = True
+            else:
+                e = negzero(m.typ, v[m.name])
+                if e is not None:
+                    out[m.name], changed = e, True
+    return out if changed else None
 
 
 def overlong(typ, v):
